@@ -31,11 +31,11 @@
 (* Design-mutant switches (Bug) re-create realistic wrong designs.          *)
 (***************************************************************************)
 EXTENDS Integers, Sequences, FiniteSets, TLC, Json, CSV, IOUtils
-CONSTANTS Configs,     \* set of machines [regs, ks, ke, secs, nb] Init ranges over
-          MaxOps,      \* operations explored after the boot
-          Ops,         \* subset of {"alloc","free","dfree","lazy","fault","own","unmap"}
-          UPages,      \* observed low pages that the operations may use (subset of 1..4)
+CONSTANTS Configs,     \* set of machines Init ranges over: [regs, ks, ke, secs, nb (pages of allocator tables),
+                       \*   mo (operations explored after the boot), ops (subset of {"alloc","free","dfree","drain",
+                       \*   "freeall","lazy","fault","own","unmap"}), ups (observed low pages the operations may use)]
           Bug, Emit
+
 
 LB == 2
 NL == 5
@@ -52,6 +52,9 @@ UP == <<16, 17, 20, 64>>           \* 16,17 share a last-level table; 20 shares 
 
 VARIABLES cfg, ph, al, as, active, cursor, kroot, zero, prot, dh, df, priv, nops, script, s, mismatch
 vars == <<cfg, ph, al, as, active, cursor, kroot, zero, prot, dh, df, priv, nops, script, s, mismatch>>
+MaxOps == cfg.mo
+Ops == cfg.ops
+UPages == cfg.ups
 
 RECURSIVE SeqOf(_)
 SeqOf(S) == IF S = {} THEN <<>> ELSE LET m == CHOOSE x \in S : \A y \in S : x <= y IN <<m>> \o SeqOf(S \ {m})
@@ -264,6 +267,24 @@ Free(i) ==
      /\ Step(<<[k |-> "free", f |-> f, res |-> IF f \in al.resv THEN "ok" ELSE "frame is already free"] @@ Counters(a2)>>, <<1, i - 1>>)
   /\ UNCHANGED <<cfg, ph, as, active, cursor, kroot, zero, prot, priv>>
 
+\* allocate until out of memory, then once more
+RECURSIVE TakeAll(_, _)
+TakeAll(a, acc) == LET t == Take(a) IN IF t.ok THEN TakeAll(t.a, Append(acc, t.f)) ELSE [a |-> a, fs |-> acc]
+Drain ==
+  /\ CanOp /\ "drain" \in Ops /\ AllocWorks
+  /\ LET r == TakeAll(al, <<>>) IN
+     /\ al' = r.a /\ dh' = dh \o r.fs /\ df' = {}
+     /\ Step(<<[k |-> "drain", res |-> "oom", fs |-> r.fs] @@ Counters(r.a),
+               [k |-> "alloc", res |-> "oom", f |-> 0] @@ Counters(r.a)>>, <<3>>)
+  /\ UNCHANGED <<cfg, ph, as, active, cursor, kroot, zero, prot, priv>>
+
+FreeAll ==
+  /\ CanOp /\ "freeall" \in Ops /\ AllocWorks /\ dh # <<>>
+  /\ LET a2 == [al EXCEPT !.resv = @ \ Range(dh)] IN
+     /\ al' = a2 /\ dh' = <<>> /\ df' = df \cup Range(dh)
+     /\ Step(<<[k |-> "freeall", res |-> "ok", fs |-> dh] @@ Counters(a2)>>, <<4>>)
+  /\ UNCHANGED <<cfg, ph, as, active, cursor, kroot, zero, prot, priv>>
+
 \* free again a frame the driver gave back earlier
 DFree ==
   /\ CanOp /\ "dfree" \in Ops /\ df # {} /\ AllocWorks
@@ -338,9 +359,9 @@ Snap ==
   /\ UNCHANGED <<cfg, al, as, active, cursor, kroot, zero, prot, dh, df, priv, nops, script>>
 
 Next == /\ mismatch = <<>>
-        /\ \/ PmmInit \/ VmmInit \/ Alloc \/ DFree \/ Snap
+        /\ \/ PmmInit \/ VmmInit \/ Alloc \/ DFree \/ Drain \/ FreeAll \/ Snap
            \/ \E i \in 1..3 : Free(i)
-           \/ \E u \in UPages : Lazy(u) \/ Fault(u) \/ Own(u) \/ Unmap(u)
+           \/ \E u \in 1..Len(UP) : u \in UPages /\ (Lazy(u) \/ Fault(u) \/ Own(u) \/ Unmap(u))
 
 NoMismatch == mismatch = <<>>
 
